@@ -146,6 +146,9 @@ CHOICE_decode_oer(const asn_codec_ctx_t *opt_codec_ctx,
 
     (void)constraints;
 
+    if(ASN__STACK_OVERFLOW_CHECK(opt_codec_ctx))
+        ASN__DECODE_FAILED;
+
     ASN_DEBUG("Decoding %s as CHOICE", td->name);
 
     /*
